@@ -46,6 +46,9 @@ pub struct RevPlan {
     /// stream objects of this revision give their /Length as a reference to an integer object
     /// (a fresh number) that is stored directly (1) or in an object stream (2); 0 = direct integer
     pub length_ref: u8,
+    /// the trailer of this revision has /Info (a fresh object whose /Title names the revision);
+    /// without it the document has no /Info after this revision, whatever older trailers said
+    pub info: bool,
 }
 
 #[derive(Clone, Debug, PartialEq)]
@@ -92,7 +95,7 @@ impl History {
                     .collect();
                 json!({"mentions": m, "xref_stream": r.xref_stream, "w_extra": r.w_extra, "w0_zero": r.w0_zero, "cuts": r.cuts, "xref_filter": filt_name(r.xref_filter),
                     "objstm_filter": filt_name(r.objstm_filter), "trailing_ws": r.trailing_ws, "two_objstms": r.two_objstms, "move_root": r.move_root,
-                    "free_old_root": r.free_old_root, "reuse_xref_num": r.reuse_xref_num, "stale_member": r.stale_member, "length_ref": r.length_ref})
+                    "free_old_root": r.free_old_root, "reuse_xref_num": r.reuse_xref_num, "stale_member": r.stale_member, "length_ref": r.length_ref, "info": r.info})
             })
             .collect();
         json!({"junk": hex(&self.junk), "nvals": self.nvals, "revs": revs, "relaxed_reuse": self.relaxed_reuse})
@@ -130,6 +133,7 @@ impl History {
                 reuse_xref_num: r.get("reuse_xref_num").and_then(|x| x.as_bool()).unwrap_or(false),
                 stale_member: r.get("stale_member").and_then(|x| x.as_bool()).unwrap_or(false),
                 length_ref: r.get("length_ref").and_then(|x| x.as_u64()).unwrap_or(0) as u8,
+                info: r.get("info").and_then(|x| x.as_bool()).unwrap_or(false),
             });
         }
         Some(History { junk: unhex(j.get("junk")?.as_str()?)?, nvals: j.get("nvals")?.as_u64()? as u32, revs, relaxed_reuse: j.get("relaxed_reuse").and_then(|x| x.as_bool()).unwrap_or(false) })
@@ -250,13 +254,19 @@ pub fn compile(h: &History) -> DocSpec {
             XrefStyle::Classic { cuts: r.cuts.clone() }
         };
         let marker = format!("rev{}", ri).into_bytes();
+        let mut trailer = vec![("ID".to_string(), Val::Arr(vec![Val::Str(marker.clone()), Val::Str(marker.clone())]))];
+        if r.info {
+            slots.insert(next, Slot::Direct { gen: 0, body: Body::Plain(Val::dict(vec![("Title", Val::Str(marker.clone()))])) });
+            trailer.push(("Info".to_string(), Val::r(next)));
+            next += 1;
+        }
         revisions.push(Revision {
             slots,
             objstms,
             style,
             size: next,
             root: Val::r(root),
-            trailer: vec![("ID".into(), Val::Arr(vec![Val::Str(marker.clone()), Val::Str(marker)]))],
+            trailer,
             overrides: vec![],
         });
     }
@@ -342,6 +352,7 @@ pub fn gen_history(rng: &mut Rng, tier: Tier) -> History {
             reuse_xref_num: rng.chance(1, 4),
             stale_member: rng.chance(1, 5),
             length_ref: if rng.chance(1, 3) { 1 + rng.below(2) as u8 } else { 0 },
+            info: rng.chance(1, 3),
         });
     }
     let junk = if rng.chance(1, 5) { (0..rng.usize(64)).map(|_| *rng.pick(b"xyz \n012")).collect() } else { vec![] };
@@ -428,6 +439,11 @@ pub fn run_history(h: &History) -> Outcome {
                 let id_ok = file.trailer.id.first().map(|s| s.as_bytes() == format!("rev{}", k - 1).as_bytes()).unwrap_or(false);
                 if !root_ok || !id_ok || file.trailer.size as u32 != rev.size {
                     return Some(("the document trailer is not that of the newest section".into(), format!("after revision {} ({}): root {:?} id {:?} size {}", k, cfg, file.trailer.root.get_ref(), file.trailer.id, file.trailer.size)));
+                }
+                let want_info = h.revs[k - 1].info;
+                let got_info = file.trailer.info_dict.as_ref().map(|i| i.title.as_ref().map(|t| t.as_bytes().to_vec()));
+                if got_info != if want_info { Some(Some(format!("rev{}", k - 1).into_bytes())) } else { None } || file.trailer.prev_trailer_pos.is_some() != (k > 1) {
+                    return Some(("the document trailer is not that of the newest section".into(), format!("after revision {} ({}): /Info title {:?} (newest trailer has /Info: {}), /Prev {:?}", k, cfg, got_info, want_info, file.trailer.prev_trailer_pos)));
                 }
                 let res = file.resolver();
                 for n in 1..rev.size {
